@@ -1,9 +1,74 @@
 import Crs
 open Crs
 
-/-- One request per line: `OP arg…` with hex-framed arguments; one response line. -/
-def respond (op : String) (args : List Bytes) : String :=
+/-! The model driver: one request per line (`op hexarg…`), one response line.
+    Only glue lives here: decoding, the table that stands for the regex engine, encoding. -/
+
+abbrev JoinTable := List (List Bytes × Option Bytes)
+
+def tableEngine (t : JoinTable) : Asm.Engine where
+  join := fun q =>
+    match t.find? (fun e => e.1 == q) with
+    | some (_, some r) => .ok r
+    | some (_, none) => .error .diag
+    | none => .error (.need q)
+
+def optResp (gs : Option (List Bytes)) : String :=
+  match gs with
+  | none => "ok 00"
+  | some l => "ok 01" ++ String.join (l.map fun g => " " ++ toHexArg g)
+
+def faultResp : Fault → String
+  | .diag => "diag"
+  | .runtime => "runtime"
+  | .need q => "need" ++ String.join (q.map fun g => " " ++ toHexArg g)
+
+def exceptResp (r : Except Fault Bytes) : String :=
+  match r with
+  | .ok out => "ok " ++ toHexArg out
+  | .error e => faultResp e
+
+def bytesLt : Bytes → Bytes → Bool
+  | [], [] => false
+  | [], _ :: _ => true
+  | _ :: _, [] => false
+  | a :: as, b :: bs => if a.toNat < b.toNat then true else if a.toNat > b.toNat then false else bytesLt as bs
+
+def insertSorted (x : Bytes × Bytes) : List (Bytes × Bytes) → List (Bytes × Bytes)
+  | [] => [x]
+  | y :: ys => if bytesLt x.1 y.1 then x :: y :: ys else y :: insertSorted x ys
+
+def sortVars (vs : List (Bytes × Bytes)) : List (Bytes × Bytes) := vs.foldr insertSorted []
+
+/-- file triples `tag name content …` → Fs -/
+def decodeFs : List Bytes → Parser.Fs
+  | tag :: name :: content :: rest =>
+    let fs := decodeFs rest
+    if tag == ['e'] then { fs with exc := (name, content) :: fs.exc } else { fs with inc := (name, content) :: fs.inc }
+  | _ => {}
+
+def shellOf (b : Bytes) : Asm.Shell := if b == ['w'] then .windows else .unix
+
+def respond (t : JoinTable) (op : String) (args : List Bytes) : String :=
   match op, args with
+  | "pat.blockStart", [l] => optResp ((Pat.blockStart? l).map fun (a, b) => [a, b])
+  | "pat.blockEnd", [l] => optResp (if Pat.blockEnd? l then some [] else none)
+  | "pat.flags", [l] => optResp ((Pat.flags? l).map fun a => [a])
+  | "pat.prefix", [l] => optResp ((Pat.prefix? l).map fun a => [a])
+  | "pat.suffix", [l] => optResp ((Pat.suffix? l).map fun a => [a])
+  | "pat.definition", [l] => optResp ((Pat.definition? l).map fun (a, b) => [a, b])
+  | "pat.include", [l] => optResp ((Pat.include? l).map fun (a, b) => [a, b])
+  | "pat.includeExcept", [l] => optResp ((Pat.includeExcept? l).map fun (a, b, c) => [a, b, c])
+  | "pat.comment", [l] => optResp (if Pat.comment? l then some [] else none)
+  | "pat.processorStart", [l] => optResp ((Pat.processorStart? l).map fun (a, b) => [a, b])
+  | "pat.assembleInput", [l] => optResp ((Pat.assembleInput? l).map fun a => [a])
+  | "pat.assembleOutput", [l] => optResp ((Pat.assembleOutput? l).map fun a => [a])
+  | "pat.splitArgs", [l] => "ok" ++ String.join ((Pat.splitArgs l).map fun g => " " ++ toHexArg g)
+  | "format.processLine", [l, ind] =>
+    (match Format.processLine l ind.length with
+     | some (l', n) => "ok " ++ toHexArg l' ++ " " ++ toHexArg (natToBytes n)
+     | none => "diag")
+  | "format.file", [b] => exceptResp (Format.formatFile b)
   | "renumber.processYaml", [ruleId, contents] => "ok " ++ toHexArg (Renumber.processYaml ruleId contents)
   | "copyright.updateRules", [v, y, c] => "ok " ++ toHexArg (Copyright.updateRules v y c)
   | "copyright.sub", [k, v, l] =>
@@ -14,24 +79,67 @@ def respond (op : String) (args : List Bytes) : String :=
       | ['4'] => Copyright.sub4 v l
       | ['5'] => Copyright.sub5 v l
       | _ => l)
+  | "pass.useHexEscapes", [s] => "ok " ++ toHexArg (Passes.useHexEscapes s)
+  | "pass.escapeDoublequotes", [s] => "ok " ++ toHexArg (Passes.escapeDoublequotes s)
+  | "pass.useHexBackslashes", [s] => "ok " ++ toHexArg (Passes.useHexBackslashes s)
+  | "pass.includeVerticalTabInSpaceClass", [s] => "ok " ++ toHexArg (Passes.includeVerticalTabInSpaceClass s)
+  | "pass.dontUseFlagsForMetaCharacters", [s] => exceptResp (Passes.dontUseFlagsForMetaCharacters s)
+  | "pass.removeOutermostNonCapturingGroup", [s] => exceptResp (Passes.removeOutermostNonCapturingGroup s)
+  | "pass.cleanUp", [s] => exceptResp (Passes.cleanUp s)
+  | "pass.findGroupBodyEnd", [s, i] =>
+    (match Passes.findGroupBodyEnd s i.length with
+     | .ok (e, alt) => "ok " ++ toHexArg (natToBytes e) ++ (if alt then " 01" else " 00")
+     | .error e => faultResp e)
+  | "cmdline.regexpStr", [sh, ev, suf, ns, input] =>
+    "ok " ++ toHexArg (Asm.regexpStr ⟨ev, suf, ns⟩ input) ++ (if sh.isEmpty then "" else "")
   | "std.runeLen", [b] => "ok " ++ toHexArg (natToBytes (runeLen b))
   | "std.natToBytes", [b] => "ok " ++ toHexArg (natToBytes b.length)
-  | "std.scanLines", [b] => "ok " ++ " ".intercalate ((scanLines b).map toHexArg)
+  | "std.scanLines", [b] => "ok" ++ String.join ((scanLines b).map fun g => " " ++ toHexArg g)
   | "std.isBlank", [b] => "ok " ++ (if isBlank b then "01" else "00")
+  | "parse.run", input :: files =>
+    (match Parser.parse (decodeFs files) Parser.idOrd Parser.idOrd Parser.defaultFuel [] input with
+     | .error e => faultResp e
+     | .ok st =>
+       "ok " ++ toHexArg st.out ++ " " ++ toHexArg (Asm.sortFlags st.flags) ++ " " ++
+         toHexArg (unlines st.prefixes) ++ " " ++ toHexArg (unlines st.suffixes) ++ " " ++
+         toHexArg (unlines ((sortVars st.vars).map fun (k, v) => k ++ '=' :: v)))
+  | "parse.expand", src :: kvs =>
+    let rec pairs : List Bytes → Parser.Vars
+      | k :: v :: rest => (k, v) :: pairs rest
+      | _ => []
+    let vs := pairs kvs
+    let (out, vs') := Parser.expandDefinitions (vs.map Prod.fst) (vs.map Prod.fst) src vs
+    "ok " ++ toHexArg out ++ " " ++ toHexArg (unlines ((sortVars vs').map fun (k, v) => k ++ '=' :: v))
+  | "parse.replaceSuffixes", [content, pairs] =>
+    (match Parser.buildPairs pairs with
+     | none => "diag"
+     | some ps => "ok " ++ toHexArg (Parser.replaceSuffixes content ps))
+  | "gen.run", ue :: us :: un :: we :: ws :: wn :: input :: files =>
+    exceptResp (Asm.generate (tableEngine t) (decodeFs files) ⟨ue, us, un, we, ws, wn⟩ Parser.idOrd Parser.idOrd input)
   | _, _ => "bad-op"
 
-partial def loop (hin : IO.FS.Stream) (hout : IO.FS.Stream) : IO Unit := do
+partial def loop (hin hout : IO.FS.Stream) (t : JoinTable) : IO Unit := do
   let line ← hin.getLine
   if line.isEmpty then return ()
   let toks := (line.trimAscii.toString.splitOn " ").filter (· ≠ "")
   match toks with
-  | [] => hout.putStrLn "bad-op"
+  | [] => hout.putStrLn "bad-op"; hout.flush; loop hin hout t
   | op :: rest =>
     match rest.mapM fromHex? with
-    | some args => hout.putStrLn (respond op args)
-    | none => hout.putStrLn "bad-hex"
-  hout.flush
-  loop hin hout
+    | none => hout.putStrLn "bad-hex"; hout.flush; loop hin hout t
+    | some args =>
+      if op == "join.addOk" then
+        match args with
+        | res :: q => hout.putStrLn "ok"; hout.flush; loop hin hout ((q, some res) :: t)
+        | [] => hout.putStrLn "bad-op"; hout.flush; loop hin hout t
+      else if op == "join.addErr" then
+        hout.putStrLn "ok"; hout.flush; loop hin hout ((args, none) :: t)
+      else if op == "join.reset" then
+        hout.putStrLn "ok"; hout.flush; loop hin hout []
+      else
+        hout.putStrLn (respond t op args)
+        hout.flush
+        loop hin hout t
 
 def main : IO Unit := do
-  loop (← IO.getStdin) (← IO.getStdout)
+  loop (← IO.getStdin) (← IO.getStdout) []
